@@ -283,3 +283,101 @@ func init() {
 	_ = scrape.New
 	_ = sidecar.NewProxy
 }
+
+func init() {
+	// ---- C07 / C08: a shard that takes seconds to answer keeps its place in the shard list (it is simply not in sync)
+	subcommands["slowshard"] = func(args []string) int {
+		fs := flag.NewFlagSet("slowshard", flag.ExitOnError)
+		out := fs.String("out", "", "file for the failing case")
+		_ = fs.Parse(args)
+		cfg := prom.NewConfigManager()
+		if err := cfg.ReloadFromRaw([]byte(lpRaw)); err != nil {
+			panic(err)
+		}
+		var bad []string
+		posts := map[string]int{}
+		mk := func(id string, delay time.Duration, holds uint64) *shard.Shard {
+			sh := shard.NewShard(id, "http://"+id, true, quietLog)
+			sh.APIGet = func(url string, ret interface{}) error {
+				time.Sleep(delay)
+				b := []byte(`{}`)
+				switch {
+				case len(url) > 13 && url[len(url)-13:] == "/runtimeinfo/":
+					b = []byte(fmt.Sprintf(`{"headSeries":10,"processSeries":10,"ConfigHash":%q}`, cfg.ConfigInfo().ConfigHash))
+				case holds != 0:
+					b = []byte(fmt.Sprintf(`{"%d":{"health":"up","series":10,"totalSeries":10,"TargetState":"normal","ScrapeTimes":5}}`, holds))
+				}
+				return json.Unmarshal(b, ret)
+			}
+			sh.APIPost = func(url string, req interface{}, ret interface{}) error { posts[id]++; return nil }
+			return sh
+		}
+		m := &scriptedManager{scale1OK: true, shards: []*shard.Shard{mk("s-0", 0, 1), mk("s-1", 3500*time.Millisecond, 0), mk("s-2", 0, 2)}}
+		active := map[uint64]*discovery.SDTargets{}
+		for _, h := range []uint64{1, 2} {
+			active[h] = &discovery.SDTargets{Job: "job0", ShardTarget: &target.Target{Hash: h, TotalSeries: 10, Labels: labels.Labels{
+				{Name: "__address__", Value: fmt.Sprintf("t%d:80", h)}, {Name: "__scheme__", Value: "http"}, {Name: "__metrics_path__", Value: "/metrics"}}}}
+		}
+		ss := target.NewScrapeStatus(10, 10)
+		ss.SetScrapeErr(time.Now(), nil)
+		co := coordinator.NewCoordinator(&coordinator.Option{MaxProcessSeries: 1000, MaxShard: 5, MinShard: 1, Period: time.Hour},
+			&scriptedReplicas{[]shard.Manager{m}}, cfg.ConfigInfo,
+			func(h uint64) *target.ScrapeStatus { return ss },
+			func() map[uint64]*discovery.SDTargets { return active },
+			prometheus.NewRegistry(), quietLog)
+		done := make(chan struct{})
+		go func() { defer close(done); defer func() { _ = recover() }(); _ = co.VerifRunOnce() }()
+		select {
+		case <-done:
+		case <-time.After(40 * time.Second):
+			bad = append(bad, "the cycle with one slow shard did not complete within 40 s")
+		}
+		for _, r := range m.scales {
+			if r < 3 {
+				bad = append(bad, fmt.Sprintf("three shards, the middle one slow (7 s for its two requests), the last one holding a target, idle time-out off: scale %d was requested (all requests %v)", r, m.scales))
+				break
+			}
+		}
+		return bigVerdict("slowshard", *out, bad, "a slow shard keeps its position: no scale request below the shard count")
+	}
+
+	// ---- C11: two assignments in quick succession, the first one large: the file describes the LATER one
+	subcommands["injectorder"] = func(args []string) int {
+		fs := flag.NewFlagSet("injectorder", flag.ExitOnError)
+		out := fs.String("out", "", "file for the failing case")
+		_ = fs.Parse(args)
+		dir, _ := ioutil.TempDir(scratchDir(), "injectorder")
+		defer os.RemoveAll(dir)
+		file := dir + "/prometheus.yml"
+		inj := sidecar.NewInjector(file, sidecar.InjectConfigOptions{ProxyURL: "http://127.0.0.1:8008", PrometheusURL: "http://127.0.0.1:9090"}, prometheus.NewRegistry(), quietLog)
+		cfg := prom.NewConfigManager()
+		_ = cfg.ReloadFromRaw([]byte(lpRaw))
+		_ = inj.ApplyConfig(cfg.ConfigInfo())
+		mkT := func(prefix string, n int) map[string][]*target.Target {
+			ts := map[string][]*target.Target{}
+			for h := 1; h <= n; h++ {
+				ts["job0"] = append(ts["job0"], &target.Target{Hash: uint64(h), Labels: labels.Labels{{Name: "__address__", Value: fmt.Sprintf("%s-%d:9100", prefix, h)},
+					{Name: "__scheme__", Value: "http"}, {Name: "__metrics_path__", Value: "/metrics"}, {Name: "zone", Value: "europe-west-1b"}}})
+			}
+			return ts
+		}
+		var bad []string
+		bigDone := make(chan time.Duration, 1)
+		start := time.Now()
+		go func() { _ = inj.UpdateTargets(mkT("old", 12000)); bigDone <- time.Since(start) }()
+		time.Sleep(150 * time.Millisecond)
+		select {
+		case d := <-bigDone:
+			fmt.Println("injectorder: ok, the large assignment was written in", d, "- too fast to be overtaken on this machine, nothing compared")
+			return 0
+		default:
+		}
+		_ = inj.UpdateTargets(mkT("new", 1))
+		<-bigDone
+		b, _ := ioutil.ReadFile(file)
+		if bytes.Contains(b, []byte("old-1:9100")) || !bytes.Contains(b, []byte("new-1:9100")) {
+			bad = append(bad, "an assignment of 12000 targets, then - while it was being written - one of 1 target: the file holds the superseded assignment")
+		}
+		return bigVerdict("injectorder", *out, bad, "of two overlapping assignments the later one is in the generated file")
+	}
+}
